@@ -212,9 +212,15 @@ def random_statement(rng, rec):
         return 'SCREEN %d' % rng.choice(ADAPTER_MODES[rec.adapter])
     if k < 0.84:
         np_ = mode.num_pages
+        if rng.random() < 0.3:
+            # keep the visible page, write elsewhere
+            return 'SCREEN ,,%d,%d' % (rng.randrange(np_), disp.vpagenum)
         return 'SCREEN ,,%d,%d' % (rng.randrange(np_ + (rng.random() < 0.1)), rng.randrange(np_ + (rng.random() < 0.1)))
     if k < 0.87:
         np_ = mode.num_pages
+        if rng.random() < 0.5:
+            # onto the visible page (must be redrawn), preferably from the page that was written to
+            return 'PCOPY %d,%d' % (disp.apagenum if rng.random() < 0.6 else rng.randrange(np_), disp.vpagenum)
         return 'PCOPY %d,%d' % (rng.randrange(np_), rng.randrange(np_))
     if k < 0.89:
         return rng.choice(['KEY ON', 'KEY OFF'])
